@@ -329,6 +329,11 @@ def stepLine (st : St) (line : String) : St × List (String × String) :=
           (st, [("balance", s!"live allocations differ from reachable objects: {got}")])
         else (bump st "balance_checked", [])
       else if opn == "epoch" then (st, [])
+      else if opn == "flipcheck" then
+        -- an overwrite that only changes the representation of the value (out-of-line → inline):
+        -- `put_update_changes_nothing` — no version word may move
+        if got == "absent" || got.endsWith "vchg ok" then (bump st "flip_checked", [])
+        else (st, [("vchg", s!"an overwrite changed a node version: {got}")])
       else (st, [("misc", s!"unmodelled op {opn}")])
     else
       let ps := partsOf opn st.expect got
